@@ -75,7 +75,7 @@ def obligations(tier, ctx):
     ENV_SIZES = (4096, 8192, 65536, 131072)
     llim = 70000 if tier == "quick" else 140000
     nsz = len(consts.size_cases(llim, extra=ENV_SIZES))
-    for pat, cut, crlf in (((0, 0, False), (5, 2, True)) if tier == "quick" else ((0, 0, False), (0, 1, False), (0, 2, True), (0, 3, False), (0, 4, False), (5, 0, True), (5, 2, False), (4, 2, False), (1, 1, True))):
+    for pat, cut, crlf in (((0, 0, False), (5, 2, True), (6, 3, False), (7, 1, False), (8, 2, False)) if tier == "quick" else ((0, 0, False), (0, 1, False), (0, 2, True), (0, 3, False), (0, 4, False), (5, 0, True), (5, 2, False), (4, 2, False), (1, 1, True), (6, 0, False), (7, 0, False), (8, 0, True), (6, 3, False), (7, 1, False), (8, 2, False))):
         obs.append(Ob(name=f"long_line_p{pat}_c{cut}{'_crlf' if crlf else ''}", params=[("k", "int")], pre=[f"0 <= k < {nsz}"], call=f"H.long_line(k, {pat}, {cut}, {crlf}, {llim})", backend="P", timeout=900,
                       family="(d) size: a line of c-1, c, c+1 characters (c: integer constants of the source and environment sizes), five ways of cutting it"))
     from symcheck.runner import mirror
